@@ -310,14 +310,34 @@ def _parse_stmt(line):
     if m:
         body = m.group(1)
         # find the opening paren of the argument list = match of the final ')'
-        depth = 0
-        for k in range(len(body) - 1, -1, -1):
-            if body[k] == ')':
-                depth += 1
-            elif body[k] == '(':
-                depth -= 1
-                if depth == 0:
-                    break
+        # (forward scan that skips string literals: `from_str(const ")")` has a parenthesis inside a string)
+        stack, k, j, nb = [], None, 0, len(body)
+        while j < nb:
+            ch = body[j]
+            if ch == '"':
+                j += 1
+                while j < nb and body[j] != '"':
+                    j += 2 if body[j] == '\\' else 1
+            elif ch == "'" and j + 2 < nb and body[j + 2] == "'" and body[j + 1] != '\\':
+                j += 2                                   # a character literal such as '('
+            elif ch == "'" and j + 3 < nb and body[j + 1] == '\\' and body[j + 3] == "'":
+                j += 3                                   # an escaped character literal
+            elif ch == '(':
+                stack.append(j)
+            elif ch == ')' and stack:
+                o = stack.pop()
+                if j == nb - 1:
+                    k = o
+            j += 1
+        if k is None:
+            depth = 0
+            for k in range(len(body) - 1, -1, -1):
+                if body[k] == ')':
+                    depth += 1
+                elif body[k] == '(':
+                    depth -= 1
+                    if depth == 0:
+                        break
         callee = body[:k].strip()
         args = [parse_operand(x) for x in split_top(body[k + 1:-1])]
         nxt = m.group(3)
